@@ -11,6 +11,7 @@ import (
 	"strings"
 
 	"github.com/nspcc-dev/neo-go/pkg/compiler"
+	"github.com/nspcc-dev/neo-go/pkg/core/native/nativenames"
 	"github.com/nspcc-dev/neo-go/pkg/crypto/hash"
 	"github.com/nspcc-dev/neo-go/pkg/util"
 	"github.com/nspcc-dev/neo-go/pkg/vm/stackitem"
@@ -602,6 +603,13 @@ func (d *GateGrid) Cases(string) []GridCase {
 		for _, s := range []string{"S", "M1", "AL", "CM"} {
 			out = append(out, GridCase{Name: fmt.Sprintf("update %s to version+1 by %s", c, s), Data: gateCase{c, s}})
 		}
+		if c == "neofs" || c == "processing" {
+			// the main-chain contracts follow the NeoFSAlphabet role: in the block right after the role
+			// changed hands only the new Alphabet's majority may update
+			for _, s := range []string{"rotated:new", "rotated:old"} {
+				out = append(out, GridCase{Name: fmt.Sprintf("update %s to version+1 by %s Alphabet majority", c, s), Data: gateCase{c, s}})
+			}
+		}
 	}
 	return out
 }
@@ -631,7 +639,24 @@ func (d *GateGrid) Eval(x *Exec, root *Node, gc GridCase) GridResult {
 	_, cur := repoVersions()
 	h := w.Contracts[c.Contract].Hash
 	nb, mb := CompileDir(tree, c.Contract).Bytes()
-	signers := d.auth.witnesses(w, c.Signer, nil)
+	var signers []util.Uint160
+	var adv uint32
+	rotated := strings.HasPrefix(c.Signer, "rotated:")
+	if rotated {
+		rm := w.E.NativeHash(w.T, nativenames.Designation)
+		po, pn := x.Do(root, Call{Script: Script(rm, "designateAsRole", int64(16), []any{d.auth.aud.Pub()}), Signers: []util.Uint160{w.Comm}, Label: "re-designate the NeoFSAlphabet role"})
+		if !po.Halt {
+			hpanic("C16 re-designation: %s", po.Fault)
+		}
+		root, adv = pn, 1
+		if c.Signer == "rotated:new" {
+			signers = []util.Uint160{d.auth.audMulti}
+		} else {
+			signers = []util.Uint160{w.Comm}
+		}
+	} else {
+		signers = d.auth.witnesses(w, c.Signer, nil)
+	}
 	where := map[string]any{"n": d.N, "contract": c.Contract, "signers": c.Signer}
 	var vs []*Violation
 	reads := func(n *Node) string {
@@ -657,8 +682,8 @@ func (d *GateGrid) Eval(x *Exec, root *Node, gc GridCase) GridResult {
 		return sb.String()
 	}
 	before := reads(root)
-	o, after := x.Do(root, Call{Script: Script(h, "update", nb, mb, nil), Signers: signers, Label: gc.Name})
-	authorised := c.Signer == "CM" || (c.Signer == "AL" && w.Alpha == w.Comm)
+	o, after := x.Do(root, Call{Script: Script(h, "update", nb, mb, nil), Signers: signers, Adv: adv, Label: gc.Name})
+	authorised := c.Signer == "CM" || (c.Signer == "AL" && w.Alpha == w.Comm) || c.Signer == "rotated:new"
 	out := "refused"
 	if authorised {
 		out = "upgraded"
